@@ -138,39 +138,66 @@ func runR131(c *Ctx) {
 		return
 	}
 	// collect add calls by the field they load
+	// a site is an instruction in checkCompleteness, in one of its closures, or
+	// in a helper of the package that it (transitively) calls; chain holds the
+	// calls that lead into the helper, whose conditions count as well
 	type site struct {
-		g   *ssa.Function
-		ins *ssa.Call
+		g     *ssa.Function
+		ins   *ssa.Call
+		chain []*ssa.Call
 	}
 	found := map[digestField][]site{}
 	var treeSteps []site
-	withAnon(fn, func(g *ssa.Function) {
-		allInstrs(g, func(ins ssa.Instruction) {
-			cl, ok := ins.(*ssa.Call)
-			if !ok {
-				return
-			}
-			if cl.Call.StaticCallee() == add {
-				f, base := loadedField(cl.Call.Args[1])
-				if f != nil {
-					if pt, ok := base.Type().Underlying().(*types.Pointer); ok {
-						if nt, ok := pt.Elem().(*types.Named); ok {
-							k := digestField{nt.Obj().Name(), f.Name()}
-							found[k] = append(found[k], site{g, cl})
+	var scopeFns []*ssa.Function
+	visited := map[*ssa.Function]bool{}
+	var visit func(top *ssa.Function, chain []*ssa.Call, depth int)
+	visit = func(top *ssa.Function, chain []*ssa.Call, depth int) {
+		if visited[top] || depth > 3 {
+			return
+		}
+		visited[top] = true
+		withAnon(top, func(g *ssa.Function) {
+			scopeFns = append(scopeFns, g)
+			allInstrs(g, func(ins ssa.Instruction) {
+				cl, ok := ins.(*ssa.Call)
+				if !ok {
+					return
+				}
+				if cl.Call.StaticCallee() == add {
+					f, base := loadedField(cl.Call.Args[1])
+					if f != nil {
+						if pt, ok := base.Type().Underlying().(*types.Pointer); ok {
+							if nt, ok := pt.Elem().(*types.Named); ok {
+								k := digestField{nt.Obj().Name(), f.Name()}
+								found[k] = append(found[k], site{g, cl, chain})
+							}
 						}
 					}
+					return
 				}
-			}
-			if isPkgFuncCall(cl.Common(), modPath+"/pkg/util", "VisitProtoBytesFields") {
-				treeSteps = append(treeSteps, site{g, cl})
-			}
-			if cl.Call.IsInvoke() && cl.Call.Method.Name() == "Get" {
-				if f, _ := loadedField(cl.Call.Value); f != nil && f.Name() == "contentAddressableStorage" {
-					treeSteps = append(treeSteps, site{g, cl})
+				if isPkgFuncCall(cl.Common(), modPath+"/pkg/util", "VisitProtoBytesFields") {
+					treeSteps = append(treeSteps, site{g, cl, chain})
 				}
-			}
+				if cl.Call.IsInvoke() && cl.Call.Method.Name() == "Get" {
+					if f, _ := loadedField(cl.Call.Value); f != nil && f.Name() == "contentAddressableStorage" {
+						treeSteps = append(treeSteps, site{g, cl, chain})
+					}
+				}
+				// helpers of this package (not the queue's own methods)
+				if h := cl.Call.StaticCallee(); h != nil && len(h.Blocks) > 0 && h.Pkg == fn.Pkg && h.Parent() == nil {
+					if h.Signature.Recv() != nil {
+						if o, ok := h.Object().(*types.Func); ok {
+							if rn := recvNamed(o); rn == nil || rn.Obj().Name() == "findMissingQueue" {
+								return
+							}
+						}
+					}
+					visit(h, append(append([]*ssa.Call{}, chain...), cl), depth+1)
+				}
+			})
 		})
-	})
+	}
+	visit(fn, nil, 0)
 	allowedEdge := func(g *ssa.Function, cond ssa.Value, val bool, k digestField, isTreeStep bool) (bool, string) {
 		c0, v := cond, val
 		for {
@@ -227,14 +254,20 @@ func runR131(c *Ctx) {
 	}
 	checkSite := func(s site, k digestField, isTreeStep bool, what string) {
 		bad := ""
-		edgeFacts(s.ins.Block(), func(cond ssa.Value, val bool) bool {
-			ok, why := allowedEdge(s.g, cond, val, k, isTreeStep)
-			if !ok {
-				bad = why
-				return false
-			}
-			return true
-		})
+		blocks := []*ssa.BasicBlock{s.ins.Block()}
+		for _, hc := range s.chain {
+			blocks = append(blocks, hc.Block())
+		}
+		for _, blk := range blocks {
+			edgeFacts(blk, func(cond ssa.Value, val bool) bool {
+				ok, why := allowedEdge(blk.Parent(), cond, val, k, isTreeStep)
+				if !ok {
+					bad = why
+					return false
+				}
+				return true
+			})
+		}
 		// inside its innermost loop it must be on every iteration's path
 		if bad == "" {
 			if h := innermostLoopHeader(s.ins.Block()); h != nil {
@@ -277,7 +310,7 @@ func runR131(c *Ctx) {
 	c.Check(okNum, name, "tree-field-numbers", c.Pos(fn.Pos()), "TreeRootFieldNumber/TreeChildrenFieldNumber equal the field numbers of Tree.root / Tree.children", "TreeRootFieldNumber / TreeChildrenFieldNumber do not match the generated Tree message: directories inside Trees would be skipped")
 	// both constants are tested in the visitor
 	tested := map[int64]bool{}
-	withAnon(fn, func(g *ssa.Function) {
+	for _, g := range scopeFns {
 		allInstrs(g, func(ins ssa.Instruction) {
 			if bo, ok := ins.(*ssa.BinOp); ok && bo.Op == token.EQL {
 				if k, ok := constInt(bo.Y); ok && strings.HasSuffix(bo.X.Type().String(), "protowire.Number") {
@@ -285,7 +318,7 @@ func runR131(c *Ctx) {
 				}
 			}
 		})
-	})
+	}
 	c.Check(tested[protoFieldNumber(c, "Tree", "Root")] && tested[protoFieldNumber(c, "Tree", "Children")], name, "tree-fields-visited", c.Pos(fn.Pos()), "both the root and the children of a Tree are traversed", "the Tree traversal does not visit both Tree.root and Tree.children")
 }
 
